@@ -288,6 +288,9 @@ def gen_cfgs(r, P, wrongs):
            cfg(w[:r.randrange(1, len(w) + 1)] + [P] + (w[:1] if r.random() < 0.3 else []), **geo()),
            cfg([], **geo()),
            cfg(w[:r.randrange(1, len(w) + 1)], **geo())]
+    # the whole archive in one read window (open_memory2 with a read size beyond any internal buffer) and in two
+    out.append(cfg([P], mode=0, bs=1 << 22, chunk=r.choice([4096, 65536, 1 << 20])))
+    out.append(cfg([P], mode=1, bs=r.choice([262144, 262145, 300000]), chunk=65536))
     extra = r.randrange(5)
     if extra == 0:
         out.append(cfg(w[:1], script=[w[1], P], **geo()))          # wrong list, callback wrong then right
@@ -760,6 +763,10 @@ def run(rep):
         e2e.append(gen_e2e_case(r, r.choice([1, 2, 3]), r.choice([0, 8]), lens, sizemode=0))
     for lens in big:
         e2e.append(gen_e2e_case(r, r.choice([1, 2, 3]), r.choice([0, 8]), lens, limit=0))
+    # bodies beyond the 256 KiB decryption buffer, every cipher, stored and deflated
+    for enc in (1, 2, 3):
+        for comp in (0, 8):
+            e2e.append(gen_e2e_case(r, enc, comp, [r.choice([262145, 300000, 524289]), 3], limit=0))
     for enc in (0,):
         for lens in ([0], [1], [33], [5, 0]):
             e2e.append(gen_e2e_case(r, enc, r.choice([0, 8]), lens))
